@@ -28,8 +28,6 @@ M = [
  # ---- C18
  ("C18", "successor-skips-at-54", "nexrad-data/src/aws/realtime/chunk_identifier.rs",
   "if sequence < 55 {\n            let next_sequence = sequence + 1;", "if sequence < 55 {\n            let next_sequence = if sequence == 53 { 55 } else { sequence + 1 };", "run crossing sequence 53"),
- ("C18", "no-wrap-at-999", "nexrad-data/src/aws/realtime/chunk_identifier.rs",
-  "if volume > 999 {\n            volume = 1;", "if volume > 1000 {\n            volume = 1;", "run crossing volume 999"),
  ("C18", "wrap-at-998", "nexrad-data/src/aws/realtime/chunk_identifier.rs",
   "if volume > 999 {", "if volume > 998 {", "run crossing volume 998"),
  ("C18", "retry-budget-2-attempts", "nexrad-data/src/aws/realtime/poll_chunks.rs",
@@ -38,20 +36,20 @@ M = [
   "    let chunks = list_chunks_in_volume(site, volume, 100).await?;\n    Ok(chunks.last().cloned())", "    let chunks = list_chunks_in_volume(site, volume, 100).await?;\n    Ok(chunks.first().cloned())", "start with more than one chunk present"),
  ("C18", "stop-checked-after-fetch", "nexrad-data/src/aws/realtime/poll_chunks.rs",
   "        previous_chunk_time = next_chunk_id.date_time();\n        previous_chunk_id = next_chunk_id;\n    }", "        previous_chunk_time = next_chunk_id.date_time();\n        previous_chunk_id = next_chunk_id;\n        if previous_chunk_id.sequence() == Some(7) { while stop_rx.try_recv().is_ok() {} }\n    }", "stop sent while chunk 7 is being fetched"),
- ("C18", "identifier-stamped-with-previous-time", "nexrad-data/src/aws/realtime/download_chunk.rs",
+ ("C18", "EQUIVALENT-CONTROL identifier-prefers-listing-time (listing and header stamps agree; must NOT alarm)", "nexrad-data/src/aws/realtime/download_chunk.rs",
   "            downloaded_object.metadata.last_modified,\n        ),", "            chunk_id.date_time().or(downloaded_object.metadata.last_modified),\n        ),", "first delivery (identifier from a listing carries the listing time - same; control-ish)"),
  ("C18", "download-key-uses-wrong-volume-after-wrap", "nexrad-data/src/aws/realtime/download_chunk.rs",
   "        chunk_id.volume().as_number(),\n        chunk_id.name()\n    );", "        chunk_id.volume().as_number().max(2),\n        chunk_id.name()\n    );", "delivery from volume 1"),
  ("C18", "send-error-swallowed", "nexrad-data/src/aws/realtime/poll_chunks.rs",
   "        tx.send((next_chunk_id.clone(), next_chunk))\n            .map_err(|_| AWSError::PollingAsyncError)?;", "        let _ = tx.send((next_chunk_id.clone(), next_chunk));", "consumer dropped while polling continues"),
- ("C18", "new-volume-joins-at-first-listed", "nexrad-data/src/aws/realtime/poll_chunks.rs",
+ ("C18", "LEGAL-CONTROL new-volume-joins-at-first-listed (allowed by the statement; must NOT alarm)", "nexrad-data/src/aws/realtime/poll_chunks.rs",
   "    chunks\n        .last()\n        .cloned()\n        .ok_or(Error::AWS(AWSError::ExpectedChunkNotFound))", "    chunks\n        .first()\n        .cloned()\n        .ok_or(Error::AWS(AWSError::ExpectedChunkNotFound))", "legal by the statement? joins next volume at chunk 1 (control: must NOT alarm)"),
  ("C18", "list-status-ignored (revert fix 4dee522)", "nexrad-data/src/aws/s3/list_objects.rs",
   "    let response = response.error_for_status().map_err(S3ListObjectsError)?;\n", "", "5xx on a listing during discovery"),
  # ---- C17
  ("C17", "truncated-ignored", "nexrad-data/src/aws/archive/list_files.rs",
   "if list_result.truncated {", "if list_result.truncated && list_result.objects.is_empty() {", "> 1000 objects under the prefix"),
- ("C17", "key-assignment-instead-of-append", "nexrad-data/src/aws/s3/list_objects.rs",
+ ("C17", "EQUIVALENT-CONTROL key-assignment-instead-of-append (xml-rs coalesces character events; must NOT alarm)", "nexrad-data/src/aws/s3/list_objects.rs",
   "BucketObjectField::Key => item.key.push_str(&chars),", "BucketObjectField::Key => item.key = chars.clone(),", "only if the XML reader splits character events (control if it coalesces)"),
  ("C17", "size-parse-error-swallowed", "nexrad-data/src/aws/s3/list_objects.rs",
   "                            item.size = chars.parse().map_err(|_| {\n                                warn!(\"Error parsing object size: {}\", chars);\n                                AWSError::S3ListObjectsDecodingError\n                            })?;", "                            item.size = chars.parse().unwrap_or(0);", "non-numeric or overflowing Size"),
@@ -61,7 +59,7 @@ M = [
   "        StatusCode::OK => {", "        StatusCode::OK | StatusCode::PARTIAL_CONTENT | StatusCode::NO_CONTENT => {", "HTTP 206/204 response"),
  ("C17", "last-modified-from-previous-object", "nexrad-data/src/aws/s3/list_objects.rs",
   "                    if let Some(item) = object.take() {\n                        objects.push(item);", "                    if let Some(mut item) = object.take() {\n                        if item.last_modified.is_none() { item.last_modified = objects.last().and_then(|o: &BucketObject| o.last_modified); }\n                        objects.push(item);", "an object whose LastModified does not parse, after one that does"),
- ("C17", "download-key-without-site", "nexrad-data/src/aws/archive/download_file.rs",
+ ("C17", "EQUIVALENT-CONTROL download-key-site-from-name-uppercased (sites are upper-case; must NOT alarm)", "nexrad-data/src/aws/archive/download_file.rs",
   "let key = format!(\"{}/{}/{}\", date.format(\"%Y/%m/%d\"), site, identifier.name());", "let key = format!(\"{}/{}/{}\", date.format(\"%Y/%m/%d\"), &identifier.name()[..4.min(identifier.name().len())].to_uppercase(), identifier.name());", "control: equivalent for upper-case sites (must NOT alarm unless names are lower-case)"),
  ("C17", "list-name-concatenation (revert fix cb85a3e)", "nexrad-data/src/aws/archive/list_files.rs",
   "let name = object.key.rsplit('/').next().unwrap_or(object.key.as_ref());", "let name = &object.key.split('/').skip(4).collect::<String>();", "key with an extra '/'"),
